@@ -106,7 +106,8 @@ def facts_dir(repo=REPO, work=WORK):
             base = os.path.join(work, "facts")
             if os.path.isdir(base):
                 olds = sorted((os.path.getmtime(os.path.join(base, d)), d) for d in os.listdir(base))
-                for _, d in olds[:-6]:
+                keep = 120 if os.path.basename(work).startswith("mut") else 6
+                for _, d in olds[:-keep]:
                     shutil.rmtree(os.path.join(base, d), ignore_errors=True)
             t0 = time.time()
             _run_driver(repo, out, os.path.join(work, "target"))
